@@ -453,7 +453,27 @@ def rule_cacheinv(run):
     cacheinv_rule(run, 'mulgrids', only=lambda m: m.name in ('column_mapping', 'layer_mapping', 'block_mapping', 'closest_col'))
 
 
+def rule_transl(run):
+    run.rule('TRANSL', 'translate() moves every stored column surface with the layers: set_default_surface() stores an elevation in the '
+             'columns with a default surface too, and block_mapping() compares it with the (moved) layer bottoms', floor=1)
+    fi = run.prog.func('mulgrids.mulgrid.translate')
+    key = 'mulgrid.translate :: every stored column surface is shifted'
+    ups = [n for n in ast.walk(fi.node) if isinstance(n, ast.AugAssign) and isinstance(n.target, ast.Attribute) and n.target.attr == 'surface']
+    if len(ups) != 1:
+        run.unknown(key, '%d updates of a column surface' % len(ups), where=fi.where()); return
+    up = ups[0]
+    obj = norm(up.target.value)
+    guards = [n for n in ast.walk(fi.node) if isinstance(n, ast.If) and any(x is up for b in n.body + n.orelse for x in ast.walk(b))]
+    bad = [g for g in guards if any(isinstance(x, ast.Attribute) and norm(x.value) == obj and x.attr != 'surface' for x in ast.walk(g.test))]
+    if bad:
+        run.violated(key, 'the surface is shifted only if `%s`: a column with a default surface still stores an elevation (set_default_surface), '
+                     'which stays behind while the layers move, and block_mapping() then takes blocks of the shifted geometry for '
+                     'above-surface ones' % norm(bad[0].test), where=fi.where(up))
+    else: run.ok(key, [norm(g.test) for g in guards], where=fi.where(up))
+
+
 def check(run):
+    run.guarded('TRANSL', rule_transl)
     run.guarded('CACHEINV', rule_cacheinv)
     run.guarded('TOTAL', rule_total)
     run.guarded('ATMKEY', rule_atmkey)
